@@ -182,6 +182,16 @@ func traverseAll(pj *simdjson.ParsedJson) (what string) {
 				a2 = *arr
 				a2.MarshalJSON()
 				a2.FirstType()
+				// and all of them one after the other on ONE Array value (each accessor leaves
+				// the value where it stopped)
+				a3 := *arr
+				a3.AsFloat()
+				a3.AsString()
+				a3.AsInteger()
+				a3.AsStringCvt()
+				a3.AsUint64()
+				a3.AsString()
+				a3.MarshalJSON()
 				if shallow && (containers <= 48 || len(pj.Tape) <= 4096) {
 					a2 = *arr
 					a2.Interface()
